@@ -68,3 +68,9 @@ def run(ck):
                         "the property verbatim: every particle once, per tomogram each chain carries orders 1..k, consecutive exit->entry distance in (min,max] and equal to the recorded value, no chain spans tomograms. "
                         "distinct = (case, size, tomograms)",
                    bound=f"{n} cases, <= {25 if ck.tier == 'quick' else 60} particles")
+    ns = 200 if ck.tier == "quick" else 4000
+    ck.bounded_run("rare_branches", r.gen_scenario_cases(ck.seed, ns), r.run_case, ref="rtc.c19:run_case",
+                   rule="role-based arrangements that reach the rare branches of add_chain_suffix / add_chain_prefix / trace_chains (head stolen by a closer exit site, loose chain end re-used, tail cut by a closer "
+                        "entry site, connection on both sides with and without head cut, all combined), random distances / directions / clutter / index order, 1..3 tomograms, two max_distance and three min_distance values; "
+                        "same property check. distinct = (case, kind)",
+                   bound=f"{ns} arrangements, <= 14 particles per tomogram")
